@@ -117,6 +117,11 @@ type caseData struct {
 }
 
 func (c caseData) term(part int) string {
+	if part > 0 {
+		// parts 1-3 judge race categories / the hang flag only: the results, the trace and the
+		// schedule are carried by part 0
+		c.conc, c.serial, c.events, c.closed, c.sched = nil, nil, nil, nil, nil
+	}
 	return lib.App("mk_case", lib.Nat(part), lib.Nat(c.kind), lib.Bool(c.valid),
 		gCfg(c.cfg), gProgs(c.progs), lib.Bool(c.warm), lib.Bool(c.searched), gNats(c.sched),
 		lib.ListOf(c.events, gEvent), lib.ListOf(c.closed, lib.Bool),
